@@ -1042,6 +1042,10 @@ func c15RunOne(rt *rapid.T, rec *verifx.Recorder, m *c15Mount, role *c15Role, q 
 		}
 		switch naBound {
 		case "", "permit":
+			// documented: not_after_bound=permit (the default) lets the request's not_after through; counted
+			if cert.NotAfter.After(t1.Add(maxEff + skew)) {
+				rec.Class("issued-beyond-max-ttl-via-request-not_after-under-permit", 1)
+			}
 		case "forbid":
 			fail("notafter-forbidden", "not_after_bound=forbid but a request carrying not_after=%s was served", q.NotAfter)
 		case "ttl-limited":
@@ -1057,6 +1061,15 @@ func c15RunOne(rt *rapid.T, rec *verifx.Recorder, m *c15Mount, role *c15Role, q 
 	default:
 		if cert.NotAfter.After(t1.Add(maxEff + skew)) {
 			fail("notafter-beyond-max-ttl", "NotAfter is %s from now, beyond max TTL %s (role max_ttl %v, mount max %s, requested ttl %s)", cert.NotAfter.Sub(t1).Round(time.Minute), maxEff, role.MaxTTL, m.cfg.MountMax, q.TTL)
+		}
+		// Not asserted, only counted: a role max_ttl LARGER than the mount's max lease TTL is honoured by the
+		// engine. The statement ("no later than the role or mount maximum") is satisfied by the role bound; the
+		// set-up guide calls the mount value "the global maximum" that roles "can restrict".
+		if cert.NotAfter.After(t1.Add(m.cfg.MountMax + skew)) {
+			rec.Class("issued-beyond-mount-max-under-larger-role-max_ttl", 1)
+			if rec.ClassCount("issued-beyond-mount-max-under-larger-role-max_ttl") <= 2 {
+				rec.Note("not asserted: %s issued a certificate valid %s with role max_ttl=%s on a mount whose max lease TTL is %s (request ttl=%s)", path, cert.NotAfter.Sub(t1).Round(time.Minute), role.MaxTTL, m.cfg.MountMax, q.TTL)
+			}
 		}
 		want := ttlEff
 		if q.TTL > 0 {
